@@ -33,8 +33,9 @@ LEVEL_TEXT = "Exploration over generated (model, rewriting) pairs; two lcm solut
 PROFILE = Profile(name="equiv", max_periods=3, p_filter=0.6, p_table_constraint=0.6, max_points=20_000,
                   filter_modes=("keep_all", "keep_all", "drop", "free"), free_constraints=0.0)
 
-REWRITES = ["perm_states", "perm_choices", "perm_functions", "perm_all", "rename", "true_constraint", "true_filter",
-            "constraint_to_filter", "filter_to_constraint"]
+REWRITES = ["perm_states", "perm_states", "perm_choices", "perm_functions", "perm_all", "perm_all", "rename", "rename",
+            "true_constraint", "true_filter", "true_filter", "constraint_to_filter", "constraint_to_filter",
+            "filter_to_constraint"]
 
 
 @st.composite
